@@ -322,7 +322,8 @@ def _sections(draw, ctx):
             lines.append([bad, "X", None])
             if draw(st.integers(0, 5)) == 0:      # the same non-member twice in a row: two warnings
                 lines.append([bad, "X", None])
-    return {"lines": lines}
+    from cpverif import spec as S_
+    return {"lines": lines, "header": draw(st.sampled_from(S_.HEADER_LIST))}
 
 
 def strat_sections(ctx: Ctx):
@@ -340,14 +341,15 @@ def check_section(ctx: Ctx, case) -> None:
             raise AssertionError(f"generator label {kind} disagrees with reference {owner} for {text!r}")
     text = T.chart_text(192, [[0, 120000]], {})
     body = "".join(x[0] + "\n" for x in lines)
-    text += "[ExpertSingle]\n{\n" + body + "}\n"
+    header = case.get("header", "ExpertSingle")
+    text += f"[{header}]\n{{\n" + body + "}\n"
     with C.capture_logs() as recs:
         try:
             chart = L.parse(text)
         except Exception as e:  # noqa: BLE001
             ctx.fail("section-parses", f"section rejected: {type(e).__name__}: {e}", rc)
             return
-    tr = T.get_track(chart, "ExpertSingle")
+    tr = T.get_track(chart, header)
     want_sp = [x[2] for x in lines if x[1] == "S"]
     want_te = [x[2] for x in lines if x[1] == "E"]
     got_sp = [[e.tick, e.sustain] for e in tr.star_power_events]
